@@ -85,6 +85,27 @@ class FakeComm:
 
     barrier = Barrier
 
+    # Collectives ESR does not use today, composed from the four above so that a harmless refactoring towards them does
+    # not make the fake fabric the failing party.
+    def allgather(self, obj):
+        return self.bcast(self.gather(obj, root=0), root=0)
+
+    def reduce(self, obj, op=None, root=0):
+        vals = self.gather(obj, root=root)
+        if self.rank != root:
+            return None
+        op = op or _SUM
+        out = vals[0]
+        for v in vals[1:]:
+            out = op(out, v)
+        return out
+
+    def allreduce(self, obj, op=None):
+        return self.bcast(self.reduce(obj, op=op, root=0), root=0)
+
+    def Abort(self, errorcode=1):
+        raise SystemExit('MPI_Abort(%r)' % (errorcode,))
+
     def fs(self, what):
         signal.pthread_sigmask(signal.SIG_BLOCK, _ALRM)
         try:
@@ -94,10 +115,16 @@ class FakeComm:
             signal.pthread_sigmask(signal.SIG_UNBLOCK, _ALRM)
 
 
+def _SUM(a, b):
+    return a + b
+
+
 def _install_fake_mpi(comm):
     m = types.ModuleType('mpi4py')
     M = types.ModuleType('mpi4py.MPI')
     M.COMM_WORLD = comm
+    M.SUM, M.MAX, M.MIN = _SUM, max, min
+    M.Wtime = lambda: 0.0
     M.Comm = FakeComm
     m.MPI = M
     sys.modules['mpi4py'] = m
